@@ -106,8 +106,8 @@ def run_sync_decoy(case, ctx, w, classes):
     copy_paths = []
     for k, dz in enumerate(case["decoys"]):
         sdn, sf = files[dz["src"] % len(files)]
-        if not os.path.lexists(w.full(sdn, sf.sub)):
-            continue   # removed by an earlier entry of this case
+        if not os.path.isfile(w.full(sdn, sf.sub)) or os.path.islink(w.full(sdn, sf.sub)):
+            continue   # removed (or turned into a directory) by an earlier entry of this case
         src_bytes = w.read_file(sdn, sf.sub)
         src_mtime = w.mtime_ns(sdn, sf.sub)
         tdisk = dz["disk"]
